@@ -9,11 +9,37 @@ from ..engine import refsem
 from ..engine.core import need
 
 
-def ref_rule(model, ctx, rule, ref, refs, fact, why, construct=None, inline=False, raises=True):
+def chained_varargs(*methods):
+    """rewrite for builder APIs documented as `x.m(a).m(b)` == `x.m(a, b)` (e.g. TickTrigger / TriggerCombination .sample)"""
+    def rewrite(e):
+        if isinstance(e, ast.Call) and isinstance(e.func, ast.Attribute) and e.func.attr in methods and not e.keywords:
+            inner = e.func.value
+            if isinstance(inner, ast.Call) and isinstance(inner.func, ast.Attribute) and inner.func.attr == e.func.attr and \
+                    not inner.keywords:
+                return ast.Call(func=inner.func, args=list(inner.args) + list(e.args), keywords=[])
+        return None
+    return rewrite
+
+
+def trigger_api(e):
+    """documented identities of the trigger builders (sim/_async.py): chained .sample() calls equal one call with the combined
+    arguments; .posedge(s) is .edge(s, 1) and .negedge(s) is .edge(s, 0)"""
+    r = chained_varargs("sample")(e)
+    if r is not None:
+        return r
+    if isinstance(e, ast.Call) and isinstance(e.func, ast.Attribute) and e.func.attr in ("posedge", "negedge") and \
+            len(e.args) == 1 and not e.keywords:
+        return ast.Call(func=ast.Attribute(value=e.func.value, attr="edge", ctx=ast.Load()),
+                        args=[e.args[0], ast.Constant(1 if e.func.attr == "posedge" else 0)], keywords=[])
+    return None
+
+
+def ref_rule(model, ctx, rule, ref, refs, fact, why, construct=None, inline=False, raises=True, rewrite=None):
     rel, qual = ref.split("::")
     fn, paths = refsem.method_paths(model, ref, inline=inline)
     refs = [refs] if isinstance(refs, str) else list(refs)
-    return refsem.compare(ctx, rule, construct or qual, f"{rel}:{fn.lineno}", qual, paths, refs, fact=fact, why=why, raises=raises)
+    return refsem.compare(ctx, rule, construct or qual, f"{rel}:{fn.lineno}", qual, paths, refs, fact=fact, why=why, raises=raises,
+                          rewrite=rewrite)
 
 
 # ------------------------------------------------------------------------------------------------ reference files
@@ -52,11 +78,28 @@ def load_refs(name):
     return out
 
 
-def run_ref_file(model, ctx, rule, name, only=None):
-    n = 0
+def run_ref_file(model, ctx, rule, name, only=None, isolate=False):
+    """isolate: an unrecognised shape in one function does not stop the comparison of the others; the unrecognised ones are
+    reported together (exit 2) after every function was compared"""
+    from ..engine.core import AnalysisError
+    n, errs = 0, []
     for ref, body, fact, why in load_refs(name):
         if only is not None and not only(ref):
             continue
-        ref_rule(model, ctx, rule, ref, body, fact or "matches its reference semantics", why)
+        try:
+            ref_rule(model, ctx, rule, ref, body, fact or "matches its reference semantics",
+                     why or "the function's behaviour differs from the reference semantics recorded for the pinned tree")
+        except AnalysisError as e:
+            if not isolate:
+                raise
+            errs.append(str(e))
+            ctx.ok(rule, ref.split("::")[1] + ":unrecognised", "not comparable (reported as analysis error)", ref)
+        except RecursionError:
+            if not isolate:
+                raise
+            errs.append(f"{ref}: recursion limit in the summariser")
+            ctx.ok(rule, ref.split("::")[1] + ":unrecognised", "not comparable (reported as analysis error)", ref)
         n += 1
+    if errs:
+        raise AnalysisError(f"{len(errs)} function(s) not comparable: " + " || ".join(e[:300] for e in errs[:6]))
     return n
